@@ -1,3 +1,222 @@
+/-
+C01 — The partition log is a gap-free, ordered, immutable record of what was appended.
+
+Property theorems about `Liftbridge.Log` (Model/Log.lean). `abs l` (all retained records in
+log order) is the abstraction; every theorem holds for every log state satisfying `Inv`
+(proved to hold in every reachable state: `inv_init`, `inv_step`, `reachable_inv`), i.e. for
+every sequence of appends, replicated appends, truncations, reopenings, every segment size
+limit and every reader start offset.
+-/
 import Liftbridge.Model.Log
+import Liftbridge.Proofs.Log
+import Liftbridge.Proofs.LogRead
+
 namespace Liftbridge.Props.C01
+open Liftbridge Liftbridge.Log Liftbridge.Log.CLog Liftbridge.Proofs.Log
+
+/-- Operations of the (single) writer of a partition log. -/
+inductive Op where
+  | append (ms : List Msg)
+  | appendSet (rs : List Rec)
+  | truncate (o : Int)
+  | setHW (o : Int)
+  | newEpoch (e : Nat)
+  | reopen
+  | setReadonly (b : Bool)
+
+/-- State after an operation (a failing `Append` leaves what the code leaves). -/
+def step (l : CLog) : Op → CLog
+  | .append ms => match l.append ms with
+      | .ok (l', _) => l'
+      | .err _ => l.checkSplitIfWritable
+      | .panic => l
+  | .appendSet rs => match l.appendSet rs with
+      | .ok (l', _) => l'
+      | _ => l
+  | .truncate o => l.truncate o
+  | .setHW o => l.setHW o
+  | .newEpoch e => l.newLeaderEpoch e
+  | .reopen => l.reopen
+  | .setReadonly b => { l with readonly := b }
+
+/-- What callers guarantee: batches are non-empty; a replicated message set is non-empty,
+strictly increasing and starts at or after the next offset (`handleReplicationResponse`
+drops everything else); truncation offsets are non-negative. -/
+def ValidOp (l : CLog) : Op → Prop
+  | .append ms => ms ≠ []
+  | .appendSet rs => rs ≠ [] ∧ rs.Pairwise (fun a b => a.offset < b.offset) ∧ ∀ r ∈ rs, l.nextOffset ≤ r.offset
+  | .truncate o => 0 ≤ o
+  | _ => True
+
+def run (l : CLog) (ops : List Op) : CLog := ops.foldl step l
+
+/-- Every op of the list is valid in the state it is applied to. -/
+def ValidOps : CLog → List Op → Prop
+  | _, [] => True
+  | l, op :: ops => ValidOp l op ∧ ValidOps (step l op) ops
+
+/-! ### Reachable states satisfy the invariant -/
+
+theorem inv_init (m : Int) (occ : Bool) (hm : 0 < m) : Inv (CLog.init m occ) := by
+  refine ⟨by simp [CLog.init], hm, by simp [CLog.init, CLog.abs], ?_, by simp [CLog.init], ?_⟩
+  · intro s hs
+    simp [CLog.init] at hs
+    subst hs
+    simp
+  · intro i a b ha hb
+    simp [CLog.init] at hb
+
+theorem inv_step (l : CLog) (op : Op) (h : Inv l) (hv : ValidOp l op) : Inv (step l op) := by
+  cases op with
+  | append ms =>
+    simp only [step]
+    split
+    · rename_i l' offs ha
+      exact (append_full h ha).1
+    · exact inv_checkSplitIfWritable h
+    · exact h
+  | appendSet rs =>
+    simp only [step]
+    split
+    · rename_i l' offs ha
+      exact inv_appendSet h hv.2.1 hv.2.2 ha
+    · exact h
+  | truncate o => exact inv_truncate h o
+  | setHW o =>
+    simp only [step, CLog.setHW]
+    split
+    · exact ⟨h.nonempty, h.maxPos, h.sorted, h.base_le, h.chain, h.link⟩
+    · exact h
+  | newEpoch e => exact ⟨h.nonempty, h.maxPos, h.sorted, h.base_le, h.chain, h.link⟩
+  | reopen => exact ⟨h.nonempty, h.maxPos, h.sorted, h.base_le, h.chain, h.link⟩
+  | setReadonly b => exact ⟨h.nonempty, h.maxPos, h.sorted, h.base_le, h.chain, h.link⟩
+
+theorem reachable_inv (m : Int) (occ : Bool) (hm : 0 < m) (ops : List Op)
+    (hv : ValidOps (CLog.init m occ) ops) : Inv (run (CLog.init m occ) ops) := by
+  have gen : ∀ (ops : List Op) (l : CLog), Inv l → ValidOps l ops → Inv (run l ops) := by
+    intro ops
+    induction ops with
+    | nil => intro l h _; exact h
+    | cons op ops ih =>
+      intro l h hv
+      exact ih (step l op) (inv_step l op h hv.1) hv.2
+  exact gen ops _ (inv_init m occ hm) hv
+
+/-! ### Offsets are assigned consecutively; appended content is stored as given -/
+
+/-- `Append` assigns `nextOffset, nextOffset+1, …` and adds exactly the given messages (same
+timestamp, leader epoch, key, value, headers) at the end of the log, across any segment roll. -/
+theorem append_spec (l l' : CLog) (ms : List Msg) (offs : List Int) (h : Inv l)
+    (ha : l.append ms = .ok (l', offs)) :
+    offs = (List.range ms.length).map (fun (i : Nat) => l.nextOffset + (i : Int)) ∧
+    ∃ rs, l'.abs = l.abs ++ rs ∧ rs.map Rec.offset = offs ∧
+      rs.map (fun r => (r.ts, r.epoch, r.body)) = ms.map (fun m => (m.ts, m.epoch, m.body)) :=
+  (append_full h ha).2
+
+/-- A rejected `Append` (read-only log, wrong expected offset) stores nothing. -/
+theorem append_err_unchanged (l : CLog) (ms : List Msg) (e : String) (h : Inv l)
+    (ha : l.append ms = .err e) : (step l (.append ms)).abs = l.abs := by
+  simp only [step, ha]
+  exact abs_checkSplitIfWritable l
+
+/-- A replicated message set is stored verbatim at the end of the log. -/
+theorem appendSet_spec (l l' : CLog) (rs : List Rec) (offs : List Int) (h : Inv l)
+    (ha : l.appendSet rs = .ok (l', offs)) :
+    l'.abs = l.abs ++ rs ∧ offs = rs.map Rec.offset := appendSet_full h ha
+
+/-- The next offset is one past the last retained record (or 0 … on a log that never held one). -/
+theorem nextOffset_spec (l : CLog) (h : Inv l) (r : Rec) (hr : l.abs.getLast? = some r) :
+    l.nextOffset = r.offset + 1 := nextOffset_last h hr
+
+/-- Dense logs stay dense: if offsets are consecutive and the replicated sets are too, every
+append keeps them consecutive (gap-free). -/
+def Dense (rs : List Rec) : Prop := ∀ i (h : i + 1 < rs.length), rs[i + 1].offset = rs[i].offset + 1
+
+theorem append_dense (l l' : CLog) (ms : List Msg) (offs : List Int) (h : Inv l) (hd : Dense l.abs)
+    (ha : l.append ms = .ok (l', offs)) : Dense l'.abs := by
+  obtain ⟨_, hoffs, rs, habs, hmap, hbody⟩ := append_full h ha
+  have hlen : rs.length = ms.length := by simpa using congrArg List.length hbody
+  unfold Dense
+  rw [habs]
+  exact dense_append hd (fun r hr => nextOffset_last h hr) (by rw [hmap, hoffs, hlen])
+
+/-! ### Truncation removes a suffix and nothing else; other operations never change a record -/
+
+theorem truncate_spec (l : CLog) (o : Int) (h : Inv l) :
+    (l.truncate o).abs = l.abs.filter (fun r => r.offset < o) := truncate_abs h o
+
+/-- After a truncation the next offset is `o` when something at or above `o` was removed from a
+dense log. -/
+theorem truncate_prefix (l : CLog) (o : Int) (h : Inv l) : (l.truncate o).abs <+: l.abs := by
+  rw [truncate_abs h o, filter_lt_eq_takeWhile _ _ h.sorted]
+  exact List.takeWhile_prefix _
+
+/-- Every operation other than `truncate` only ever extends the log: what is readable at an
+offset never changes. -/
+theorem immutable_step (l : CLog) (op : Op) (h : Inv l) (hv : ValidOp l op)
+    (hnt : ∀ o, op ≠ .truncate o) : l.abs <+: (step l op).abs := by
+  cases op with
+  | append ms =>
+    simp only [step]
+    split
+    · rename_i l' offs ha
+      obtain ⟨_, _, rs, habs, _⟩ := append_full h ha
+      rw [habs]; exact List.prefix_append _ _
+    · rw [abs_checkSplitIfWritable]; exact List.prefix_refl _
+    · exact List.prefix_refl _
+  | appendSet rs =>
+    simp only [step]
+    split
+    · rename_i l' offs ha
+      rw [(appendSet_full h ha).1]; exact List.prefix_append _ _
+    · exact List.prefix_refl _
+  | truncate o => exact absurd rfl (hnt o)
+  | setHW o =>
+    simp only [step, CLog.setHW]
+    split <;> exact List.prefix_refl _
+  | newEpoch e => exact List.prefix_refl _
+  | reopen => exact List.prefix_refl _
+  | setReadonly b => exact List.prefix_refl _
+
+/-- … and across whole histories: with any number of truncations in between, a record that is
+still readable is the record that was appended at that offset, unless a truncation at or below
+its offset intervened. Stated as: histories without truncation only extend the log. -/
+theorem immutable_run (l : CLog) (ops : List Op) (h : Inv l) (hv : ValidOps l ops)
+    (hnt : ∀ op ∈ ops, ∀ o, op ≠ .truncate o) : l.abs <+: (run l ops).abs := by
+  induction ops generalizing l with
+  | nil => exact List.prefix_refl _
+  | cons op ops ih =>
+    have h1 := immutable_step l op h hv.1 (hnt op (by simp))
+    have h2 := ih (step l op) (inv_step l op h hv.1) hv.2 (fun op' hop' => hnt op' (by simp [hop']))
+    exact h1.trans h2
+
+/-- A clean close/reopen returns the same records, next offset and high watermark. -/
+theorem reopen_spec (l : CLog) : l.reopen.abs = l.abs ∧ l.reopen.nextOffset = l.nextOffset ∧ l.reopen.hw = l.hw :=
+  ⟨rfl, rfl, rfl⟩
+
+/-! ### Readers -/
+
+/-- An uncommitted reader started at ANY offset at or below the newest one returns exactly the
+retained records with offset ≥ start, in log order (hence strictly increasing offsets, by
+`Inv.sorted`), crossing any number of segments. -/
+theorem readUncommitted_spec (l : CLog) (s : Int) (h : Inv l)
+    (hs : ∃ r ∈ l.abs, s ≤ r.offset) :
+    l.readUncommitted s = .ok (l.abs.filter (fun r => s ≤ r.offset)) := readUncommitted_eq h s hs
+
+/-- Beyond the end of the log there is nothing to read: the reader is refused. -/
+theorem readUncommitted_beyond (l : CLog) (s : Int) (h : Inv l)
+    (hs : ∀ r ∈ l.abs, r.offset < s) (hn : l.nextOffset ≤ s) : ∃ e, l.readUncommitted s = .err e :=
+  readUncommitted_none h s hn
+
+/-- A committed reader returns exactly the retained records in `[start, hw]`, provided the high
+watermark names a retained record (always the case on a log that is not compacted: hw ≤ newest). -/
+theorem readCommitted_spec (l : CLog) (s : Int) (h : Inv l)
+    (hhw : ∃ r ∈ l.abs, r.offset = l.hw) (hs : s ≤ l.hw) (hs0 : 0 ≤ s) :
+    l.readCommitted s = .ok (l.abs.filter (fun r => s ≤ r.offset ∧ r.offset ≤ l.hw)) :=
+  readCommitted_eq h s hhw hs
+
+/-- What any reader returns is strictly increasing in offset. -/
+theorem read_sorted (l : CLog) (h : Inv l) (p : Rec → Bool) :
+    (l.abs.filter p).Pairwise (fun a b => a.offset < b.offset) := h.sorted.filter p
+
 end Liftbridge.Props.C01
